@@ -146,12 +146,18 @@ def nontrivial(text, status):
     return False
 
 
+DEEP_SHAPES = ["<a n>", "<A N>", "<a>", "</a>", "k v", "k", "<a n/>"]
+
+
 def shards(tier, seed):
     maxtok = 4 if tier == "quick" else 5
     specs = [{"part": "single", "first": f, "maxtok": maxtok} for f in linegen.TOKENS]
     shapes = linegen.LINE_SHAPES + EXTRA_SHAPES
     for i in range(len(shapes)):
         specs.append({"part": "multi", "first": i, "maxlines": 4 if tier == "thorough" else 3})
+    # few shapes, long texts: sections opened again under the same (type, name), nesting, repeats
+    for i in range(len(DEEP_SHAPES)):
+        specs.append({"part": "deep", "first": i, "maxlines": 7 if tier == "thorough" else 6})
     per = 400 if tier == "quick" else 6000
     for i in range(16):
         specs.append({"part": "random", "seed": seed * 1000 + i, "n": per,
@@ -202,6 +208,32 @@ def run_shard(spec):
                         res.sample({"text": text}, limit=1)
         res.exhaustive_parts.append("multi-line: all texts of <= %d lines over %r"
                                     % (spec["maxlines"], shapes))
+    elif part == "deep":
+        shapes = DEEP_SHAPES
+        first = shapes[spec["first"]]
+        for n in range(0, spec["maxlines"]):
+            for t in itertools.product(shapes, repeat=n):
+                seq = (first,) + t
+                # only texts whose sections balance (the others are C03's business)
+                depth = 0
+                ok = True
+                for l in seq:
+                    if l.startswith("</"):
+                        depth -= 1
+                        if depth < 0:
+                            ok = False
+                            break
+                    elif l.startswith("<") and not l.endswith("/>"):
+                        depth += 1
+                if not ok or depth:
+                    continue
+                text = "\n".join(seq) + "\n"
+                nt, status = _do(res, text)
+                if nt:
+                    res.nontrivial_count += 1
+                    if n >= 4:
+                        res.sample({"text": text}, limit=1)
+        res.exhaustive_parts.append("deep: all balanced texts of <= %d lines over %r" % (spec["maxlines"], shapes))
     else:
         _random(res, spec)
     return res
